@@ -413,8 +413,11 @@ def gen_opts(rng, S):
         if val != ABSENT:
             opts[k] = val
 
-    put('chi_max', rng.choice([ABSENT, None, None, 0, 1, 1, 2, 2, 3, max(n - 1, 0), n, n + 1, 100]))
-    put('chi_min', rng.choice([ABSENT, ABSENT, None, None, 0, 1, 2, 2, 3, max(n - 1, 0), n, n + 1]))
+    # values well beyond the length as well: slices with a start before the beginning of the array (`-chi` < -n)
+    beyond = [n + 1, n + 2, n + 3, 2 * n - 1, 2 * n, 2 * n + 1, 3 * n, 3 * n + 2]
+    put('chi_max', rng.choice([ABSENT, None, None, 0, 1, 1, 2, 2, 3, max(n - 1, 0), n, n + 1, 100, rng.choice(beyond)]))
+    put('chi_min', rng.choice([ABSENT, ABSENT, None, None, 0, 1, 2, 2, 3, max(n - 1, 0), n, n + 1,
+                               rng.choice(beyond), rng.choice(beyond), rng.randint(n + 2, 2 * n + 2)]))
     # degeneracy_tol
     r = rng.random()
     if r < 0.25:
@@ -498,6 +501,38 @@ def gen_case(rng):
     case = {'part': 'truncate', 'S': S, 'opts': opts}
     if rng.random() < 0.05:
         case['as_config'] = True  # a tenpy Config instead of a dict
+    case.update(extra)
+    return case
+
+
+def gen_oversized(rng):
+    """chi_min (and chi_max) anywhere in n+1 .. 3n+2 combined with each lower-priority constraint, chosen so that the
+    latter wants to discard most of the spectrum: an unsatisfiable chi_min must be ignored, not reinterpreted"""
+    n = rng.randint(1, 8)
+    S = sorted({rng.choice(DY) for _ in range(n)}, reverse=True)
+    if rng.random() < 0.3:
+        S += [S[-1]] * rng.randint(1, 2)  # a multiplet at the bottom
+    if rng.random() < 0.3:
+        S.append(rng.choice([1e-9, 1e-12, 0.0]))
+    n = len(S)
+    v = sorted(fr(x) for x in S)
+    opts = {'chi_max': rng.choice([None, None, n + 1, n + 2, 2 * n, 2 * n + 1, 3 * n, 100]),
+            'chi_min': rng.randint(n + 1, 3 * n + 2), 'svd_min': None, 'trunc_cut': None}
+    extra = {}
+    which = rng.choice(['svd_min', 'trunc_cut', 'degeneracy_tol', 'svd_min+trunc_cut', 'all'])
+    j = rng.randrange(n)  # the lower-priority constraint asks to discard v[:j] (at least)
+    if 'svd_min' in which or which == 'all':
+        opts['svd_min'] = float(v[j])
+    if 'trunc_cut' in which or which == 'all':
+        cs = sum(x * x for x in v[:j + 1])
+        t = math.sqrt(float(cs)) * 0.999
+        opts['trunc_cut'] = t if t < 1.0 else 0.5
+    if which in ('degeneracy_tol', 'all'):
+        opts['degeneracy_tol'] = rng.choice([1e-8, 0.1, 1.0, 3.0])
+        if which == 'degeneracy_tol':
+            opts['chi_max'] = rng.randint(1, n)  # forces a cut; the multiplet rule then decides where
+    rng.shuffle(S)
+    case = {'part': 'truncate', 'S': [float(x) for x in S], 'opts': opts, 'stream': 'oversized-chi'}
     case.update(extra)
     return case
 
@@ -598,6 +633,8 @@ def histogram(res, case, impl, info):
     for k in ORDER:
         v = case['opts'].get(k, ABSENT)
         res.count(f'trunc.{k}=' + ('absent' if v == ABSENT else 'None' if v is None else 'set'))
+        if k in ('chi_max', 'chi_min') and isinstance(v, int):
+            res.count(f'trunc.{k}.vs-n=' + ('<n' if v < n else 'n' if v == n else 'n+1' if v == n + 1 else 'n+2..2n' if v <= 2 * n else '>2n'))
     S = case['S']
     res.count('trunc.ties=' + str(len(set(S)) < len(S)))
     res.count('trunc.zeros=' + str(any(x == 0 for x in S)))
@@ -678,6 +715,10 @@ CORPUS = [
     {'part': 'truncate', 'S': [0.25, 0.5, 0.125], 'opts': {'chi_max': None, 'svd_min': 2.0, 'trunc_cut': 0.125}},
     # all defaults
     {'part': 'truncate', 'S': [0.5, 0.0, 1e-15, 0.5], 'opts': {}},
+    # chi_min far beyond the length is unsatisfiable and ignored; svd_min still applies
+    {'part': 'truncate', 'S': [0.8, 0.6, 1e-9], 'opts': {'chi_max': None, 'chi_min': 5, 'svd_min': 0.7, 'trunc_cut': None}},
+    {'part': 'truncate', 'S': [0.5, 0.25, 0.125, 0.0625], 'opts': {'chi_max': None, 'chi_min': 7, 'svd_min': None, 'trunc_cut': 0.2}},
+    {'part': 'truncate', 'S': [0.5, 0.25, 0.25, 0.125], 'opts': {'chi_max': 2, 'chi_min': 6, 'degeneracy_tol': 0.1, 'svd_min': None, 'trunc_cut': None}},
     {'part': 'truncate', 'S': [0.75], 'opts': {'chi_max': 1, 'chi_min': 2, 'degeneracy_tol': 0.5, 'svd_min': 1.0, 'trunc_cut': 0.9}},
 ]
 
@@ -699,7 +740,7 @@ def load_corpus():
 def gen_cases(rng, n):
     out = []
     for i in range(n):
-        out.append(gen_special(rng) if i % 25 == 24 else gen_case(rng))
+        out.append(gen_special(rng) if i % 25 == 24 else gen_oversized(rng) if i % 25 == 12 else gen_case(rng))
     return out
 
 
